@@ -176,7 +176,7 @@ def run(sim, params):
             async with aiotarstream.open(stream=reader, mode="r", copybufsize=bufsize) as tar:
                 await extract_tar_stream(tar, src, dst, bufsize)
             outcome["status"] = "ok"
-        except (tarfile.TarError, WorkflowExecutionException, EOFError) as e:
+        except (tarfile.TarError, WorkflowExecutionException, EOFError, OSError) as e:   # OSError: raised by the extraction itself (e.g. FileExistsError)
             outcome["status"] = "raised"
             outcome["error"] = f"{type(e).__name__}: {e}"
 
